@@ -1029,7 +1029,7 @@ def check(run):
                                   "mirroring model and implementation disagree (%s schedule, config %s): %s" % (cs["kind"], cs["cfg"][0], dis2[0]),
                                   {"correspondence": "coq/Mirror/Model.v runw vs wire run (what each mirror was handed)",
                                    "input": {"config": cs["cfg"], "program": cs["program"], "schedule": cs["sched"], "kind": cs["kind"]},
-                                   "disagreement": dis2, "model": v2, "scenario_with_mirrors": cs["scn_m"]}, found_input=False)
+                                   "disagreement": dis2, "model": v2, "scenario_with_mirrors": cs["scn_m"], "scenario_without": cs["scn_b"]}, found_input=(cs["kind"] == "stall"))
             if cs["kind"] == "outage":
                 stats["overflow_runs"] += 1
                 if cs.get("with_txn"):
